@@ -262,14 +262,17 @@ func WorldOf(e *sched.Exec) *World {
 
 // Actor is a scripted process (or an internal extension thread inside the runtime process).
 type Actor struct {
-	W        *World
-	P        *vexec.Proc
-	Name     string // "runtime", "ext:<name>", "int:<name>"
-	Gen      int
-	ExtID    string // Lambda-Extension-Identifier after a successful register
-	Env      map[string]string
-	Phase    string // World.Phase at launch
-	PhaseGen int    // 1-based ordinal of this launch among the launches of the program in that phase
+	W     *World
+	P     *vexec.Proc
+	Name  string // "runtime", "ext:<name>", "int:<name>"
+	Gen   int
+	ExtID string // Lambda-Extension-Identifier after a successful register
+	Env   map[string]string
+	// FailWriteAfter > 0: the connection of the next call breaks after the platform has written this many bytes of
+	// its answer (the process is about to die while a large event is being sent to it); one-shot
+	FailWriteAfter int
+	Phase          string // World.Phase at launch
+	PhaseGen       int    // 1-based ordinal of this launch among the launches of the program in that phase
 }
 
 func (w *World) procMain(name string, body func(a *Actor)) func(p *vexec.Proc) {
@@ -360,6 +363,11 @@ func (a *Actor) doR(kind, method, path string, hdr map[string]string, body []byt
 	for k, v := range hdr {
 		req.Header.Set(k, v)
 	}
+	var rw http.ResponseWriter = rec
+	if a.FailWriteAfter > 0 {
+		rw = &breakingWriter{ResponseWriter: rec, left: a.FailWriteAfter}
+		a.FailWriteAfter = 0
+	}
 	func() {
 		defer func() {
 			if r := recover(); r != nil {
@@ -370,7 +378,7 @@ func (a *Actor) doR(kind, method, path string, hdr map[string]string, body []byt
 				c.Panic = fmt.Sprint(r)
 			}
 		}()
-		w.Handler.ServeHTTP(rec, req)
+		w.Handler.ServeHTTP(rw, req)
 	}()
 	a.alive() // a dead process observes nothing
 	c.Answered = sched.StepNo()
@@ -433,6 +441,45 @@ func (r *pieceReader) Read(p []byte) (int, error) {
 	copy(p, r.data[:n])
 	r.data = r.data[n:]
 	return n, nil
+}
+
+// ResponseBroken posts a response whose body breaks off after head (the connection fails while the platform reads).
+func (a *Actor) ResponseBroken(id string, head []byte) *Call {
+	c := a.doR("response", "POST", rtBase+"/invocation/"+id+"/response", map[string]string{"Content-Type": "application/octet-stream"}, head, &brokenBody{head: head})
+	c.ReqID = id
+	return c
+}
+
+// breakingWriter lets left bytes of the body through and then fails every write (connection reset by peer).
+type breakingWriter struct {
+	http.ResponseWriter
+	left int
+}
+
+func (b *breakingWriter) Write(p []byte) (int, error) {
+	if b.left <= 0 {
+		return 0, io.ErrClosedPipe
+	}
+	if len(p) <= b.left {
+		b.left -= len(p)
+		return b.ResponseWriter.Write(p)
+	}
+	n, _ := b.ResponseWriter.Write(p[:b.left])
+	b.left = 0
+	return n, io.ErrClosedPipe
+}
+
+type brokenBody struct {
+	head []byte
+	done bool
+}
+
+func (b *brokenBody) Read(p []byte) (int, error) {
+	if !b.done {
+		b.done = true
+		return copy(p, b.head), nil
+	}
+	return 0, io.ErrUnexpectedEOF
 }
 
 type slowBody struct {
